@@ -196,7 +196,7 @@ def run_convert(ctx, tr, d, s, k, via, key):
 
 def run(ctx: core.Check):
     ctx.cov["rule"] = ("keys: every type x encoding x private format x public format (40, all through the library, sampled "
-                       "through the CLI); convert: type x leading-zero shape (zx, zy in 0..2, keys found by search) x columns x "
+                       "through the CLI) and in bulk per type (DER x200/x4000, PEM x20/x400: the key is drawn by the tool); convert: type x leading-zero shape (zx, zy in 0..2, keys found by search) x columns x "
                        "indentation x tab x no-length x no-const. All scenarios enumerated by TLC (Keys_MC). Distinct & "
                        "non-trivial = distinct scenario; shapes with a leading zero byte are counted separately.")
     g = ctx.mc("Keys_MC", "Keys_MC.cfg", workers=1, coverage=False, label="A:model-check + B:scenario-generation")
@@ -212,6 +212,21 @@ def run(ctx: core.Check):
         if k % 6 == 0:
             run_keys(ctx, tr, d, s, 1000 + k, "cli")
     ctx.sample({"scenario": tr.scn[1], "event": tr.events[1]})
+    # "for all keys": the key is drawn by the tool, so the key space is only reachable by repetition.  Binary (DER) files are
+    # the ones whose content depends on the key bytes at every position (text handling of a file that ends / starts with a
+    # whitespace, NUL or newline byte); counted so that the evidence says the special tails were actually met.
+    reps = 200 if ctx.quick else 4000
+    special = 0
+    for t in ("secp256r1", "secp384r1", "secp521r1", "ed25519", "ed448"):
+        for enc_, n_ in (("der", reps), ("pem", reps // 10)):
+            s = {"kind": "keys", "type": t, "enc": enc_, "privfmt": "pkcs8", "pubfmt": "default", "reps": reps}
+            for i in range(n_):
+                pf = run_keys(ctx, tr, d, s, f"b_{t}_{enc_}_{i}", "lib")
+                if pf is not None and enc_ == "der":
+                    tail = pf.read_bytes()[-1:] + pf.with_name(pf.name.replace("_priv.", "_pub.")).read_bytes()[-1:]
+                    special += any(b in b"\t\n\x0b\x0c\r \x00" for b in tail)
+                    pf.unlink()
+    ctx.cov["der_pairs_with_a_file_ending_in_whitespace_or_nul"] = special
     budget = 20000 if ctx.quick else 300000
     if ctx.quick:
         ctx.rng.shuffle(conv_s)
@@ -263,7 +278,8 @@ def replay(ctx, rec):
     d = ctx.tmp("c15r")
     tr = toolrun.Trace()
     if scn["kind"] == "keys":
-        run_keys(ctx, tr, d, scn, 1, scn.get("via", "lib"))
+        for i in range(scn.get("reps", 1)):   # the key is drawn by the tool: a bulk scenario is replayed as many times as it ran
+            run_keys(ctx, tr, d, {k: v for k, v in scn.items() if k != "via"}, i, scn.get("via", "lib"))
     else:
         key = serialization.load_pem_private_key(scn["pem"].encode(), None)
         run_convert(ctx, tr, d, scn, 1, scn.get("via", "lib"), key)
